@@ -9,6 +9,7 @@ from ..viol import Violation, require
 ID = 'C13'
 LEVEL = 'exploration'
 RULE = (
+    'S: image / preimage with dynamic reordering enabled, the trigger at every position (as in C09); qvars given as set, list, iterator or generator. '
     'E: one pair (x, xp) without and with one free variable y: every (trans, '
     'set) pair of functions for 2 variables (256) and all (thorough; quick: '
     'a seeded 1/16) of the 65 536 pairs for 3 variables x every subset of '
@@ -32,6 +33,11 @@ ASSUMPTIONS = [
 
 def plan(tier, seed):
     specs = []
+    # trigger-position sweeps of dynamic reordering (machinery of C09)
+    for s_ in range(6 if tier == 'thorough' else 2):
+        specs.append(dict(kind='schedule', seed=seed * 100 + 60 + s_,
+                          only=['image', 'preimage'],
+                          examples=200 if tier == 'thorough' else 40))
     # two variables: x, xp
     for order in (['x', 'xp'], ['xp', 'x']):
         specs.append(dict(kind='one', names=['x', 'xp'], order=order,
@@ -102,7 +108,8 @@ def run_one(spec, out):
                     want = expected_pre(tr, st, n, {0: 1}, q, fa)
                     try:
                         r = _bdd.preimage(refs[tr], refs[st], {'x': 'xp'},
-                                          qn, b, forall=fa)
+                                          iter(sorted(qn)) if (tr + st) % 3
+                                          == 0 else qn, b, forall=fa)
                         if den(r) != want or r != refs[want]:
                             out.fail('preimage.wrong_result',
                                      dict(base, op='preimage', trans=tr,
@@ -187,6 +194,12 @@ def check_random_case(case):
     else:
         ren_arg = dict(ren_names)
         q_arg = set(case['qvars'])
+    # qvars may be any iterable (dd.bdd functions)
+    qf = case.get('qform', 0)
+    if case['api'] == 'bdd' and qf:
+        q_list = sorted(q_arg, key=str)
+        q_arg = (q_list if qf == 1 else iter(q_list) if qf == 2
+                 else (x_ for x_ in q_list))
     den = Den(b, nm)
     if op == 'preimage':
         want = expected_pre(tr, st, n, ren_idx, q, fa)
@@ -262,6 +275,7 @@ def run_random(spec, out):
         return dict(kind='random', names=names, order=order, op=op,
                     pairs=used, trans=table(), set=table(), qvars=qv,
                     forall=draw(st.booleans()),
+                    qform=draw(st.integers(0, 3)),
                     as_levels=draw(st.booleans()),
                     api=draw(st.sampled_from(['bdd', 'autoref'])))
 
@@ -281,10 +295,16 @@ def run_random(spec, out):
 
 
 def run(spec, out):
+    if spec['kind'] == 'schedule':
+        from . import c09
+        return c09.run_schedule(spec, out)
     dict(one=run_one, random=run_random)[spec['kind']](spec, out)
 
 
 def replay_into(case, out):
+    if case['kind'] == 'schedule':
+        from . import c09
+        return c09.replay_into(case, out)
     if case['kind'] == 'random':
         out.guard(case, lambda: check_random_case(case))
         out.count(1, 0)
